@@ -1,1 +1,139 @@
-//! R8: MIDAS file writer (filled in with C19/C20).
+//! R8: MIDAS file writer (little endian; 16-bit, 32-bit and 64-bit-aligned 32-bit banks),
+//! lz4 frame writer, and the process-level driver helpers of engine E3.
+use std::io::Write;
+use std::path::{Path, PathBuf};
+use std::process::Command;
+
+#[derive(Clone, Copy, Debug, PartialEq)]
+pub enum BankFmt {
+    B16,
+    B32,
+    B32A,
+}
+
+#[derive(Clone, Debug)]
+pub struct MEvent {
+    pub id: u16,
+    pub serial: u32,
+    pub timestamp: u32,
+    pub fmt: BankFmt,
+    pub banks: Vec<(String, Vec<u8>)>,
+}
+
+pub fn encode_event(e: &MEvent) -> Vec<u8> {
+    let mut body = Vec::new();
+    for (name, data) in &e.banks {
+        assert!(name.len() == 4 && name.bytes().all(|b| b.is_ascii_alphanumeric()), "MIDAS bank names are 4 alphanumeric bytes: {name:?}");
+        body.extend(name.as_bytes());
+        match e.fmt {
+            BankFmt::B16 => {
+                body.extend(1u16.to_le_bytes()); // TID_BYTE
+                body.extend(u16::try_from(data.len()).expect("16-bit bank too long").to_le_bytes());
+            }
+            BankFmt::B32 => {
+                body.extend(1u32.to_le_bytes());
+                body.extend((data.len() as u32).to_le_bytes());
+            }
+            BankFmt::B32A => {
+                body.extend(1u32.to_le_bytes());
+                body.extend((data.len() as u32).to_le_bytes());
+                body.extend(0u32.to_le_bytes());
+            }
+        }
+        body.extend(data);
+        // padding is defined on the data length (8-byte alignment of the data), not on the position
+        body.extend(std::iter::repeat(0u8).take((8 - data.len() % 8) % 8));
+    }
+    let flags: u32 = match e.fmt {
+        BankFmt::B16 => 1,
+        BankFmt::B32 => 17,
+        BankFmt::B32A => 49,
+    };
+    let mut v = Vec::with_capacity(24 + body.len());
+    v.extend(e.id.to_le_bytes());
+    v.extend(0u16.to_le_bytes());
+    v.extend(e.serial.to_le_bytes());
+    v.extend(e.timestamp.to_le_bytes());
+    v.extend((body.len() as u32 + 8).to_le_bytes());
+    v.extend((body.len() as u32).to_le_bytes());
+    v.extend(flags.to_le_bytes());
+    v.extend(body);
+    v
+}
+
+pub fn encode_file(run: u32, initial_ts: u32, final_ts: u32, events: &[MEvent]) -> Vec<u8> {
+    let odb = b"{}";
+    let mut v = Vec::new();
+    v.extend(0x8000u16.to_le_bytes());
+    v.extend(0x494Du16.to_le_bytes());
+    v.extend(run.to_le_bytes());
+    v.extend(initial_ts.to_le_bytes());
+    v.extend((odb.len() as u32).to_le_bytes());
+    v.extend(odb);
+    for e in events {
+        v.extend(encode_event(e));
+    }
+    v.extend(0x8001u16.to_le_bytes());
+    v.extend(0x494Du16.to_le_bytes());
+    v.extend(run.to_le_bytes());
+    v.extend(final_ts.to_le_bytes());
+    v.extend((odb.len() as u32).to_le_bytes());
+    v.extend(odb);
+    v
+}
+
+pub fn lz4_frame(data: &[u8]) -> Vec<u8> {
+    let mut enc = lz4::EncoderBuilder::new().build(Vec::new()).expect("lz4 encoder");
+    enc.write_all(data).expect("lz4 write");
+    let (out, r) = enc.finish();
+    r.expect("lz4 finish");
+    out
+}
+
+pub const BIN_DIR: &str = "/verif/.build/repo/release";
+
+/// A private scratch directory under /verif/.build/run, removed on drop.
+pub struct Scratch(pub PathBuf);
+impl Scratch {
+    pub fn new(tag: &str) -> Scratch {
+        let p = PathBuf::from(format!("/verif/.build/run/{}-{}-{}", std::process::id(), rayon::current_thread_index().unwrap_or(99), tag));
+        let _ = std::fs::remove_dir_all(&p);
+        std::fs::create_dir_all(&p).expect("scratch dir");
+        Scratch(p)
+    }
+    pub fn write(&self, name: &str, data: &[u8]) -> PathBuf {
+        let p = self.0.join(name);
+        std::fs::write(&p, data).expect("write scratch file");
+        p
+    }
+}
+impl Drop for Scratch {
+    fn drop(&mut self) {
+        let _ = std::fs::remove_dir_all(&self.0);
+    }
+}
+
+pub struct RunOut {
+    pub status: Option<i32>,
+    pub stderr: String,
+    /// the CSV file content if it was written
+    pub csv: Option<String>,
+}
+
+/// Run one analysis binary on `files` (in this argument order) with `-o <dir>/out`.
+pub fn run_binary(bin: &str, dir: &Path, files: &[PathBuf], threads: Option<usize>) -> RunOut {
+    let out = dir.join("out.csv");
+    let _ = std::fs::remove_file(&out);
+    let mut c = Command::new(format!("{BIN_DIR}/{bin}"));
+    c.current_dir(dir).arg("-o").arg(dir.join("out")).args(files);
+    if let Some(t) = threads {
+        c.env("RAYON_NUM_THREADS", t.to_string());
+    }
+    let o = c.output().expect("spawn analysis binary (was bin/setup run?)");
+    RunOut { status: o.status.code(), stderr: String::from_utf8_lossy(&o.stderr).into_owned(), csv: std::fs::read_to_string(&out).ok() }
+}
+
+/// CSV body without the two '#' header lines, split into rows of fields (header row first).
+pub fn csv_rows(csv: &str) -> Vec<Vec<String>> {
+    csv.lines().filter(|l| !l.starts_with('#')).map(|l| l.split(',').map(|s| s.to_string()).collect()).collect()
+}
